@@ -16,7 +16,7 @@ RULE = ("histories: five helpers of different images alive at once, every ordere
         "full product projection x CRVAL x pixel scale x pixel position x (ellipse size x axis ratio x angle); one "
         "case = one (projection, CRVAL, scale), all positions/ellipses looped inside; non-trivial = vector/ellipse "
         "cases with size > 0 (all); distinct = distinct (header, pixel, size, ratio, angle)")
-ASSUMPTIONS = ["rotation-free square pixels, |CRVAL2| <= 85 (LONPOLE = 180)",
+ASSUMPTIONS = ["rotation-free square pixels; quick tier |CRVAL2| <= 85, thorough tier also CRVAL2 = +-90 (LONPOLE = the standard's default: 180, and 0 at +90); position angles are not judged at a pixel that is itself a pole",
                "reference: FITS Paper II zenithal formulas written independently (mc/oracles/wcs_zenithal.py) and "
                "longdouble vector great-circle distance / position angle",
                "minor axis reference: component of the minor-axis end point (gnomonic offsets about the centre) "
